@@ -4,7 +4,7 @@ import json
 import os
 import subprocess
 
-from .. import common, pool, ref, rt
+from .. import build, common, pool, ref, rt
 
 PID = "C17"
 
@@ -49,6 +49,59 @@ def check_salted(chunk):
     return acc
 
 
+# selections that keep descrypt (so configure keeps the obsolete API) but drop other DES-based methods: the
+# four functions must still be DES there.  glibc = the drop-in replacement selection.
+SELECTIONS = [("glibc", ["descrypt", "md5crypt", "sha256crypt", "sha512crypt"]),
+              ("no-bigcrypt", [m for m in build.ALL_HASHES if m != "bigcrypt"]),
+              ("descrypt-bsdicrypt", ["descrypt", "bsdicrypt", "yescrypt"])]
+
+
+def selection_api(args):
+    """(name, hashes, tool args) -> vdes 'api' run against a shared library built for that selection"""
+    name, hashes, targs = args
+    acc = common.Acc()
+    tree = build.Tree()
+    d = tree.scratch("c17-" + name)
+    try:
+        cc, cflags, ldflags = build.FLAVOURS["so-asan"]
+        gd = build.gen_headers(os.path.join(d, "gen"), hashes=hashes, obsolete_api=True)
+        objs = build.compile_objects(os.path.join(d, "obj"), gd, cc, cflags)
+        lib = os.path.join(d, "libcrypt.so.1")
+        exe = os.path.join(d, "vdes")
+        for cmd in ("%s -shared %s %s -Wl,--version-script=%s -Wl,-soname,libcrypt.so.1 -Wl,-z,defs -Wl,-z,text -o %s %s" % (
+                        cc, cflags, " ".join(objs), os.path.join(gd, "libcrypt.map"), lib, ldflags),
+                    "%s -std=gnu11 -D_GNU_SOURCE -DVDES_SO %s -I%s -I%s %s -o %s %s -L%s -l:libcrypt.so.1 -Wl,-rpath,%s "
+                    "-lpthread -ldl -lnettle" % (cc, cflags.replace("-fPIC -DPIC", ""), gd, build.HARNESS,
+                                                 os.path.join(build.HARNESS, "vdes.c"), exe, ldflags, d, d)):
+            p = subprocess.run(cmd, shell=True, stdout=subprocess.PIPE, stderr=subprocess.STDOUT, text=True)
+            if p.returncode != 0:
+                acc.inconc("selection %s does not build: %s" % (name, p.stdout[-300:]))
+                return acc, {}
+        env = dict(os.environ, ASAN_OPTIONS="abort_on_error=1:detect_leaks=0", UBSAN_OPTIONS="print_stacktrace=1:halt_on_error=1")
+        p = subprocess.run([exe] + targs, stdout=subprocess.PIPE, stderr=subprocess.PIPE, text=True, env=env, timeout=3000)
+        st = {}
+        for ln in p.stdout.splitlines():
+            if ln.startswith("VIOL "):
+                t = ln.split(" ", 2)
+                acc.violation("%s/%s@%s" % (PID, t[1], name), "library built for the selection %s: %s" % (",".join(hashes), t[2]),
+                              {"selection": hashes, "args": targs})
+            elif ln.startswith("STAT "):
+                st = json.loads(ln[5:])
+        if p.returncode not in (0, 1):
+            acc.violation("%s/died@%s" % (PID, name), "vdes on the selection %s: rc=%s %s" % (",".join(hashes), p.returncode, p.stderr[-600:]),
+                          {"selection": hashes, "args": targs})
+        acc.count("selection_api_comparisons", st.get("comparisons", 0))
+        acc.count("evaluations", st.get("comparisons", 0))
+        acc.cls(("selection", name))
+        return acc, st
+    except build.BuildError as e:
+        acc.inconc("selection %s does not build: %s" % (name, str(e)[-300:]))
+        return acc, {}
+    finally:
+        import shutil
+        shutil.rmtree(d, ignore_errors=True)
+
+
 def run(tier):
     run_ = common.Run(PID, tier, "exploration")
     bad = [b for b in ref.selftest() if "DES" in b or "nettle" in b]
@@ -85,6 +138,9 @@ def run(tier):
     run_.merge(acc)
     for a in pool.pmap(check_salted, pool.chunks(salted, max(1, len(salted) // 64 + 1))):
         run_.merge(a)
+    for a, st in pool.pmap(selection_api, [(n_, h_, ["api", str(run_.seed * 100 + 90 + i), str(1500 if tier == "quick" else 60000)])
+                                           for i, (n_, h_) in enumerate(SELECTIONS)], nproc=3):
+        run_.merge(a)
     a = run_.acc
     cov = {
         "rule": "api: setkey/encrypt and setkey_r/encrypt_r bound with dlvsym from the freshly built shared library "
@@ -94,6 +150,9 @@ def run(tier):
                 "nettle, salted/iterated cases against the Python bit-level model; distinct = workload classes",
         "api_and_core_comparisons_vs_nettle": tot.get("comparisons", 0),
         "weight_grid_pairs": tot.get("grid_pairs", 0),
+        "comparisons_on_other_hash_selections": int(a.n.get("selection_api_comparisons", 0)),
+        "other_hash_selections": [n_ + "=" + ",".join(h_) for n_, h_ in SELECTIONS],
+        "object_offsets_used": tot.get("object_offsets", 0),
         "salted_iterated_cases_vs_model": int(a.n.get("salted_checked", 0)),
         "samples": [dict(zip(("key", "salt", "count", "block", "out"), s)) for s in salted[:3]] or ["(none)"],
         "flavours": ["so-asan (compat symbols via dlvsym)", "asan static objects (internal symbols)"],
